@@ -24,8 +24,8 @@ impl Scenario for C16 {
     }
     fn runs(&self, tier: Tier) -> u64 {
         match tier {
-            Tier::Quick => 6 * OPS.len() as u64 * 4,
-            Tier::Thorough => 6 * OPS.len() as u64 * 40,
+            Tier::Quick => 6 * OPS.len() as u64 * 8,
+            Tier::Thorough => 6 * OPS.len() as u64 * 56,
         }
     }
     fn rule(&self) -> String {
@@ -37,6 +37,11 @@ impl Scenario for C16 {
             "libsodium's randombytes cannot report failure (libsodium aborts); paseto-v4-sodium is covered by the history part only".into(),
             "the draw index space of RSA key generation (hundreds of draws) is sampled, not enumerated".into(),
         ]
+    }
+    fn adopts(&self, v: &crate::world::Violation) -> bool {
+        // liveness once faults stop: in these plans every healthy operation after a failed one
+        // must succeed and round-trip
+        matches!((v.property, v.class.as_str()), ("C01", "seal-failed" | "authentic-rejected" | "roundtrip-mismatch") | ("C05", "wrap-failed" | "authentic-blob-rejected" | "roundtrip-mismatch") | ("C08", _))
     }
     fn plan(&self, seed: u64, run: u64, tier: Tier) -> Plan {
         let bk = Bk::ALL[(run % 6) as usize];
@@ -52,12 +57,12 @@ fn gen_one(seed: u64, run: u64, tier: Tier, bk: Bk, op: &str, rep: u64) -> Plan 
     let now = Ns(b.now_ns);
     if op == "history" {
         let count = match tier {
-            Tier::Quick => 400,
-            Tier::Thorough => 20_000,
+            Tier::Quick => 2_000,
+            Tier::Thorough => 100_000,
         };
         let hop = [HistOp::Encrypt, HistOp::Sign, HistOp::GenLocal, HistOp::GenSecret, HistOp::PieWrap, HistOp::PwWrap, HistOp::PkeSeal][(rep % 7) as usize];
         let count = match (hop, bk) {
-            (HistOp::GenSecret, Bk::V1) => 2,
+            (HistOp::GenSecret, Bk::V1) => if tier == Tier::Quick { 2 } else { 24 },
             (HistOp::Sign, Bk::V1) => count / 20,
             (HistOp::PkeSeal, Bk::V1) => count / 4,
             (HistOp::Sign | HistOp::GenSecret | HistOp::PkeSeal, Bk::V3) => count / 10,
